@@ -543,7 +543,9 @@ func (s *c10stream) Reassembled(rs []tcpassembly.Reassembly) {
 				f.fail("skip-count", "positive Skip before any position")
 				return
 			}
-			if ci != 0 {
+			if ci != 0 && !(f.inSeg && f.limits) {
+				// a flush pops one page and then only contiguous ones; only the limit loop of
+				// insertIntoConn may pop several pages with a gap in front of each
 				f.fail("skip-not-first", fmt.Sprintf("Skip=%d on element %d of one call", ch.skip, ci))
 			}
 			if f.inSeg && !f.limits {
